@@ -13,6 +13,7 @@ import StathamModel.Orderer
 import StathamModel.Py.Repr
 import StathamModel.Format
 import StathamModel.Inherit
+import StathamModel.Py.Module
 open Lean (Json)
 open Statham Statham.Codec
 
@@ -220,6 +221,26 @@ def handle (req : Json) : R Json := do
       | d :: ds => inherit Cfg.object (ds.foldl ClassDecl.andThen d)
     let name := (decls.getLast?.map (·.name)).getD "Object"
     pure (Json.mkObj [("chain", encElem (chain.toElem name)), ("flat", encElem (flat.toElem name))])
+  | "annotation" => do
+    let e ← decElem (← req.getObjVal? "elem")
+    pure (Json.mkObj [("annotation", Json.str (annot e).show)])
+  | "emit_module" => do
+    let els ← (← (← req.getObjVal? "elements").getArr?).toList.mapM decElem
+    match emitModule els with
+    | .error _ => pure (Json.mkObj [("r", "unresolvable")])
+    | .ok m =>
+      let encClass (c : ClassDef) : Json := Json.mkObj [
+        ("name", Json.str c.name), ("base", Json.str c.base),
+        ("kwargs", Json.arr (c.kwargs.map fun kv => Json.arr #[Json.str kv.1, encExpr kv.2]).toArray),
+        ("doc", match c.doc with | some d => Json.str d | none => Json.null),
+        ("props", Json.arr (c.props.map fun p => Json.mkObj [("attr", Json.str p.attr), ("ann", Json.str p.ann.show), ("expr", encExpr p.expr)]).toArray)]
+      let inScope := (List.range m.classes.length).all fun i =>
+        match m.classes[i]? with
+        | some c => c.names.all fun n => (m.scopeAt i).contains n
+        | none => true
+      pure (Json.mkObj [("r", "ok"), ("typing", Json.arr (m.typing.map Json.str).toArray), ("maybe", Json.bool m.maybe),
+        ("elements", Json.arr (m.elements.map Json.str).toArray), ("property", Json.bool m.property),
+        ("classes", Json.arr (m.classes.map encClass).toArray), ("names_in_scope", Json.bool inScope)])
   | "attr_names" => do
     let tables ← getTables req
     let names ← (← (← req.getObjVal? "names").getArr?).toList.mapM (·.getStr?)
